@@ -272,7 +272,8 @@ theorem align_sim (sim : Sim num enc t₂ st l) (env : Env) (henv : env.paths.is
                         subst hst
                         obtain ⟨w1, w2, w3, w4⟩ := write_sim sim.good.inv sim.r ha _ _ (.inl rfl) hs hnd'
                         refine ⟨a, v, _, rfl, constVal_of hsub hnd hev, ?_, simR_seg sim w4 rfl rfl, ?_⟩
-                        · simp only [Layout.step, hla, hn0, if_false, toL, hoff]
+                        · rw [Layout.step_align]
+                          simp only [hla, hn0, if_false, toL, hoff]
                           exact w3
                         · have hv0 : v.toNat ≠ 0 := by omega
                           simp [cursor, ha, w1, Layout.Ref.next, Layout.Ref.size, hoff, hv0, Nat.add_assoc]
